@@ -132,8 +132,9 @@ def main():
                                  crop_hw=(160, 160), use_augmentations_train=False)
             mc = get_model_config(init_weight="default", backbone_config=plain["model_config"]["backbone_config"]["unet"] and {"unet": plain["model_config"]["backbone_config"]["unet"]},
                                   head_configs=(job["model"] if job.get("heads") == "default" else {job["model"]: plain["model_config"]["head_configs"][job["model"]]}))
-            tc = get_trainer_config(batch_size=1, shuffle_train=False, num_workers=0, ckpt_save_top_k=1, ckpt_save_last=True,
-                                    trainer_num_devices=1, trainer_accelerator="cpu", enable_progress_bar=False, steps_per_epoch=1,
+            derived = job.get("feed") == "derived"
+            tc = get_trainer_config(batch_size=(4 if derived else 1), shuffle_train=False, num_workers=0, ckpt_save_top_k=1, ckpt_save_last=True,
+                                    trainer_num_devices=1, trainer_accelerator="cpu", enable_progress_bar=False, steps_per_epoch=(None if derived else 1),
                                     max_epochs=1, seed=1000, use_wandb=job["wandb"], save_ckpt=job["ckpt"], save_ckpt_path=out_dir,
                                     wandb_entity=None, wandb_project="verif", wandb_name="run", wandb_api_key=token, wandb_mode="offline",
                                     optimizer="Adam", learning_rate=1e-4, lr_scheduler=(None if job.get("sched", "none") == "none" else job["sched"]), early_stopping=False)
